@@ -875,6 +875,55 @@ func ruleS5(p *Prog, r *Report) {
 						why = w
 					}
 				}
+				if !ok2 {
+					// collected form: the error is filed under its key in a local map, and before any register is written
+					// the map is consulted and a filed error returned (decision in key order instead of arrival order)
+					var mapUpdates []*ssa.MapUpdate
+					eachInstr(fn, func(y ssa.Instruction) {
+						if mu, ok := y.(*ssa.MapUpdate); ok {
+							mapUpdates = append(mapUpdates, mu)
+						}
+					})
+					for _, cand := range cands {
+						for _, mu := range mapUpdates {
+							if !sameValue(mu.Value, cand) {
+								continue
+							}
+							if _, fresh := canon(mu.Map).(*ssa.MakeMap); !fresh {
+								continue
+							}
+							m := canon(mu.Map)
+							returned := false
+							lookBlocks := map[*ssa.BasicBlock]bool{}
+							eachInstr(fn, func(y ssa.Instruction) {
+								lk, isLk := y.(*ssa.Lookup)
+								if !isLk || canon(lk.X) != m {
+									return
+								}
+								lookBlocks[y.Block()] = true
+								if h := loopHeadOf(y.Block()); h != nil {
+									lookBlocks[h] = true // running the checking loop (possibly zero times) counts as consulting the map
+								}
+								for _, ret := range returnsOf(fn) {
+									if len(ret.Results) == 0 {
+										continue
+									}
+									ev := ret.Results[len(ret.Results)-1]
+									if derivesFromValue(ev, lk, 0) {
+										returned = true
+									}
+								}
+							})
+							bypass := canReach(fn, in, func(y ssa.Instruction) bool {
+								_, _, _, isW := p.registerWrite(y)
+								return isW
+							}, func(y ssa.Instruction) bool { return lookBlocks[y.Block()] })
+							if returned && bypass == nil {
+								ok2, why = true, "worker errors are filed by key and a filed error is returned before any register write"
+							}
+						}
+					}
+				}
 				r.Decide(ok2, R, cons, p.InstrPos(in), why, "worker error is not surfaced: "+why)
 			}
 		})
